@@ -172,6 +172,8 @@ func runC03(p *core.Program, r *core.Report) {
 			r.OK("C03.classified", name, pos, reason)
 		} else if reach[u.Obj] {
 			r.OK("C03.classified", name, pos, "reached from a checked codec pair")
+		} else if expandedEverywhere(p, u) {
+			r.OK("C03.classified", name, pos, "a shared bytes producer, judged where it is called: its body stands in each calling writer, and those are paired")
 		} else {
 			r.Undec("C03.classified", name, pos, "codec function is neither paired, reached from a pair, nor listed: its layout is not shown to have a reader")
 		}
